@@ -108,6 +108,12 @@ def seeds():
   # active because its end is 0, open-ended content
   S.append(doc_spec(_body(_p("p1", "never", None, F(0), "r1"), _p("p2", "a", F(1), F(3), "r1"), _p("p3", "b", F(2), None, "r2"),
                           node("p", [node("span", [text("c")], id="p4s", e=F(0))], id="p4", r="r2")), [{"id": "r1"}, {"id": "r2"}]))
+  # a paragraph that presents a line break and its own background but no span, outside the hull of the span intervals
+  S.append(doc_spec(node("body", [node("div", [_p("p1", "a", F(0), F(2)),
+                                                 node("p", [{"k": "br", "id": "br1"}], id="p2", b=F(5), e=F(7), st={"BackgroundColor": RED})], id="d")], id="b", r="r1"),
+                    [{"id": "r1", "st": {"ShowBackground": E("ShowBackgroundType", "whenActive")}}]))
+  # no declared region: the default region paints the background that an initial value of the document gives it
+  S.append(doc_spec(_body(_p("p1", "a", F(2), F(4))), [], init=[["BackgroundColor", RED]]))
   # paragraphs with their own text alignment (what the WebVTT writer's text_align option writes out)
   S.append(doc_spec(_body(_p("p1", "a", F(1), F(2), "r1", st={"TextAlign": E("TextAlignType", "end")}),
                           _p("p2", "b", F(2), F(3), "r1", st={"TextAlign": E("TextAlignType", "center")})), [{"id": "r1"}]))
